@@ -87,7 +87,11 @@ Walk(tree, cfg0, path, node, depth, anc) ==
 \* does not exist is an error; an empty name (possible in a -files0-from list only) is
 \* diagnosed and skipped.
 EmptyNames(roots) == {r \in DOMAIN roots : roots[r].spell = <<>>}
+\* a name find cannot represent (not valid UTF-8; the harness says which): as an operand or in the -files0-from list it
+\* is reported, and nothing is walked
+BadNames(roots) == {r \in DOMAIN roots : "bad" \in DOMAIN roots[r] /\ roots[r].bad}
 WalkRoots(tree, cfg, roots) ==
+  IF BadNames(roots) # {} THEN [ents |-> <<>>, errs |-> 1] ELSE
   LET per == [r \in DOMAIN roots |->
                 IF roots[r].spell = <<>> THEN [ents |-> <<>>, errs |-> 0]
                 ELSE IF roots[r].node = 0 THEN [ents |-> <<>>, errs |-> 1]
